@@ -909,3 +909,20 @@ func freeVarWritten(fn *ssa.Function, fv *ssa.FreeVar) bool {
 }
 
 var debugGuard = os.Getenv("ARVCHECK_DEBUG_GUARD") != ""
+
+// EdgeGuarded: the CFG edge pred→succ lies behind a branch establishing one of alts: either every path to the end of
+// pred passes such a branch, or pred itself ends in the branch and succ is on the establishing side.
+func EdgeGuarded(fn *ssa.Function, from ssa.Instruction, pred, succ *ssa.BasicBlock, alts ...CP) bool {
+	if g, _ := Guard(fn, from, lastInstr(pred), alts...); g {
+		return true
+	}
+	for _, a := range alts {
+		es, _ := IfEdges(fn, a.Match)
+		for e := range es {
+			if e.From == pred && pred.Succs[e.Succ] == succ {
+				return true
+			}
+		}
+	}
+	return false
+}
